@@ -265,20 +265,32 @@ pub mod boundary {
         }
 
         /// Check whether this list contains a certain value.
-        pub fn contains(&self, item: &T) -> bool {
-            let item_ptr = NonNull::from_ref(item).cast::<()>();
+        pub fn contains(&self, item: &T) -> bool
+        where
+            T: Clone,
+        {
+            // The elements are stored as `T::Transformed`, so that is what
+            // the item has to be to be compared with them.
+            let item = T::transform(item.clone());
+            let item_ptr = NonNull::from_ref(&item).cast::<()>();
 
-            // SAFETY: We have a valid value behind the pointer and forget
-            // the value to ensure that we give ownership.
+            // SAFETY: We have a valid value of the element type behind the
+            // pointer; it is only borrowed for the comparison.
             unsafe { self.inner.contains(item_ptr) }
         }
 
         /// Returns the index of the first element that is equal to the given value.
-        pub fn index(&self, item: &T) -> Option<usize> {
-            let item_ptr = NonNull::from_ref(item).cast::<()>();
+        pub fn index(&self, item: &T) -> Option<usize>
+        where
+            T: Clone,
+        {
+            // The elements are stored as `T::Transformed`, so that is what
+            // the item has to be to be compared with them.
+            let item = T::transform(item.clone());
+            let item_ptr = NonNull::from_ref(&item).cast::<()>();
 
-            // SAFETY: We have a valid value behind the pointer and forget
-            // the value to ensure that we give ownership.
+            // SAFETY: We have a valid value of the element type behind the
+            // pointer; it is only borrowed for the comparison.
             unsafe { self.inner.index(item_ptr) }
         }
 
